@@ -14,6 +14,11 @@ AgreeDec(e) == /\ ~Has(e, "panic") /\ LabelAgrees(e["in"], e.ok, e.names)
 AgreeRT(e) == /\ ~Has(e.out, "panic")
               /\ e.wire = LabelEncode(e.names)
               /\ e.out.ok /\ e.out.names = e.names
+\* through an option's own constructor and accessor: whatever encoding the option chose, it reads (under the
+\* specification's decoder) as the names that were put in, and those are the names that come back
+AgreeRTVia(e) == /\ ~Has(e.out, "panic")
+                 /\ LabelAgrees(e.wire, TRUE, e.names)
+                 /\ e.out.ok /\ e.out.names = e.names
 \* replay the edits on the specification's object and compare every encoding
 RECURSIVE ObjRun(_, _, _, _)
 ObjRun(o, steps, encs, i) ==
@@ -34,6 +39,7 @@ AgreeObj(e) == /\ ~Has(e.out, "panic")
 Agree(e) == CASE e.op = "LDec" -> AgreeDec(e)
               [] e.op = "LVia" -> AgreeDec(e)
               [] e.op = "LRT" -> AgreeRT(e)
+              [] e.op = "LRTV" -> AgreeRTVia(e)
               [] e.op = "LObj" -> AgreeObj(e)
               [] OTHER -> FALSE
 
